@@ -63,7 +63,7 @@ FILES = ["harness/fzf/c01.go"]
 def run(c, replay):
     ov = c.harness_overlay("src", FILES)
     b = c.build_test("src", ov)
-    c.bounds = dict(configurations=96, line_len=c.pick(4, 5), line_alphabet="a b A á ␠ - _ (+12 fixed longer lines)",
+    c.bounds = dict(configurations=96, line_len=c.pick(4, 5), line_alphabet="a b A á Á ␠ - _ (+12 fixed longer lines)",
                     term_texts="all strings of length 1-2 over a b A á ␠", term_kinds=6, negation=True,
                     multi="all AND pairs and OR pairs over a 48-term core; t1 (t2|t3), (t1|t2) t3 over a 12-term core; thorough adds 3-group AND and 3-way OR")
     c.assumptions += ["queries are generated from the grammar and rendered in the documented syntax",
